@@ -186,7 +186,7 @@ pub fn run_path(pre: &[Spec], steps: &[Step]) -> (Vec<(&'static str, Value, Stri
 // the exact exclusive end of its key space (.., k+1, 0x00) and inside the range a lost carry
 // would wrongly cover (.., k+1, 0x80) are present. "Never touches another author's entries."
 
-fn neighbour_ids() -> Vec<[u8; 32]> {
+pub(crate) fn neighbour_ids() -> Vec<[u8; 32]> {
     let w = crate::universe::author_id(crate::universe::EDGE_AUTHOR).to_bytes();
     let mut below = w;
     below[31] = 0xfe;
@@ -200,7 +200,7 @@ fn neighbour_ids() -> Vec<[u8; 32]> {
     vec![below, end, gap, far]
 }
 
-fn neighbour_entries() -> Vec<iroh_docs::sync::SignedEntry> {
+pub(crate) fn neighbour_entries() -> Vec<iroh_docs::sync::SignedEntry> {
     let mut v = vec![];
     for (i, a) in neighbour_ids().iter().enumerate() {
         // keys without prefix relations among them (raw entries bypass the admission rule)
@@ -381,6 +381,7 @@ fn one(report: &mut Report, pre: &[Spec], steps: &[Step], ordinal: u64) {
     if nontrivial {
         report.nontrivial += 1;
     }
+    let _watch = crate::util::watch::enter("operation sequence", steps_json(pre, steps));
     match catch(|| run_path(pre, steps)) {
         Err(p) => report.violation(
             "no_panic",
